@@ -11,6 +11,26 @@ pub struct MdEntry {
     pub val: Vec<u8>,
     /// entry under a protocol-reserved name carrying a canary (must never reach the wire)
     pub reserved: bool,
+    /// how the key is spelled when it is handed to `MetadataKey::from_bytes` (names are
+    /// case-insensitive and stored lower-cased): 0 as is, 1 UPPER, 2 Capitalised-Words
+    pub key_case: u8,
+}
+
+pub fn spell(key: &str, key_case: u8) -> String {
+    match key_case {
+        0 => key.to_string(),
+        1 => key.to_ascii_uppercase(),
+        _ => {
+            let mut up = true;
+            key.chars()
+                .map(|c| {
+                    let o = if up { c.to_ascii_uppercase() } else { c };
+                    up = c == '-';
+                    o
+                })
+                .collect()
+        }
+    }
 }
 
 pub const RESERVED: [&str; 6] = ["te", "user-agent", "content-type", "grpc-status", "grpc-message", "grpc-message-type"];
@@ -56,13 +76,13 @@ pub fn gen_md(sim: &Sim, max: u64, with_reserved: bool) -> Vec<MdEntry> {
             let prev = out[sim.draw(out.len() as u64) as usize].clone();
             if !prev.reserved {
                 let val = if prev.bin { sim.bytes(sim.range(0, 40) as usize) } else { ascii_value(sim) };
-                out.push(MdEntry { key: prev.key, bin: prev.bin, val, reserved: false });
+                out.push(MdEntry { key: prev.key, bin: prev.bin, val, reserved: false, key_case: sim.weighted(&[6, 1, 1]) as u8 });
                 continue;
             }
         }
         if with_reserved && sim.chance(1, 6) {
             let key = sim.pick(&RESERVED).to_string();
-            out.push(MdEntry { key, bin: false, val: format!("{CANARY}-{i}").into_bytes(), reserved: true });
+            out.push(MdEntry { key, bin: false, val: format!("{CANARY}-{i}").into_bytes(), reserved: true, key_case: 0 });
             continue;
         }
         if sim.chance(2, 5) {
@@ -70,22 +90,43 @@ pub fn gen_md(sim: &Sim, max: u64, with_reserved: bool) -> Vec<MdEntry> {
             // every length mod 3, incl. 0; opaque bytes
             let len = sim.range(0, 40) as usize;
             let val = if len > 0 && sim.chance(1, 3) { (0..len).map(|_| sim.draw(256) as u8).collect() } else { sim.bytes(len) };
-            out.push(MdEntry { key, bin: true, val, reserved: false });
+            out.push(MdEntry { key, bin: true, val, reserved: false, key_case: sim.weighted(&[6, 1, 1]) as u8 });
         } else {
             let key = if sim.chance(1, 2) { sim.pick(&KEY_POOL).to_string() } else { rand_key(sim) };
-            out.push(MdEntry { key, bin: false, val: ascii_value(sim), reserved: false });
+            out.push(MdEntry { key, bin: false, val: ascii_value(sim), reserved: false, key_case: sim.weighted(&[6, 1, 1]) as u8 });
         }
     }
     out
 }
 
+fn key_abort(class: &str, detail: String) -> ! {
+    std::panic::panic_any(simcore::SimAbort { class: class.into(), detail })
+}
+
 pub fn apply_md(map: &mut MetadataMap, entries: &[MdEntry]) {
     for e in entries {
+        let spelled = spell(&e.key, e.key_case);
         if e.bin {
-            let k = BinaryMetadataKey::from_bytes(e.key.as_bytes()).expect("harness: binary key");
+            // a name ending in "-bin" in any spelling is a binary key and only that
+            let k = match BinaryMetadataKey::from_bytes(spelled.as_bytes()) {
+                Ok(k) => k,
+                Err(_) => key_abort("C08/binary-key-rejected", format!("BinaryMetadataKey::from_bytes({spelled:?}) is refused although the name ends in -bin")),
+            };
+            if k.as_str() != e.key {
+                key_abort("C08/key-not-normalised", format!("BinaryMetadataKey::from_bytes({spelled:?}) is stored as {:?}", k.as_str()));
+            }
+            if AsciiMetadataKey::from_bytes(spelled.as_bytes()).is_ok() {
+                key_abort("C08/ascii-key-accepts-bin-suffix", format!("AsciiMetadataKey::from_bytes({spelled:?}) is accepted: an ASCII entry could be stored under a binary name"));
+            }
             map.append_bin(k, BinaryMetadataValue::from_bytes(&e.val));
         } else {
-            let k = AsciiMetadataKey::from_bytes(e.key.as_bytes()).expect("harness: ascii key");
+            let k = match AsciiMetadataKey::from_bytes(spelled.as_bytes()) {
+                Ok(k) => k,
+                Err(_) => key_abort("C08/ascii-key-rejected", format!("AsciiMetadataKey::from_bytes({spelled:?}) is refused")),
+            };
+            if k.as_str() != e.key {
+                key_abort("C08/key-not-normalised", format!("AsciiMetadataKey::from_bytes({spelled:?}) is stored as {:?}", k.as_str()));
+            }
             let v = AsciiMetadataValue::try_from(&e.val[..]).expect("harness: ascii value");
             map.append(k, v);
         }
@@ -141,7 +182,33 @@ pub fn check_md_received(sim: &Sim, who: &str, expected: &[MdEntry], got: &Metad
             }
         }
     }
-    // iterator classification (accessor clause, sampled)
+    // iterator classification (accessor clause, sampled): keys(), values(), iter()
+    for k in got.keys() {
+        match k {
+            tonic::metadata::KeyRef::Ascii(k) if k.as_str().ends_with("-bin") => sim.violation("C08/binary-entry-presented-as-ascii", format!("{who}: keys() yields {:?} as ASCII", k.as_str())),
+            tonic::metadata::KeyRef::Binary(k) if !k.as_str().ends_with("-bin") => sim.violation("C08/ascii-entry-presented-as-binary", format!("{who}: keys() yields {:?} as binary", k.as_str())),
+            _ => {}
+        }
+    }
+    {
+        let (mut va, mut vb) = (0usize, 0usize);
+        for v in got.values() {
+            match v {
+                tonic::metadata::ValueRef::Ascii(_) => va += 1,
+                tonic::metadata::ValueRef::Binary(_) => vb += 1,
+            }
+        }
+        let (mut ia, mut ib) = (0usize, 0usize);
+        for kv in got.iter() {
+            match kv {
+                KeyAndValueRef::Ascii(..) => ia += 1,
+                KeyAndValueRef::Binary(..) => ib += 1,
+            }
+        }
+        if (va, vb) != (ia, ib) {
+            sim.violation("C08/iterators-disagree-on-entry-kinds", format!("{who}: values() sees {va} ASCII / {vb} binary values, iter() sees {ia} / {ib}"));
+        }
+    }
     for kv in got.iter() {
         match kv {
             KeyAndValueRef::Ascii(k, _) => {
